@@ -101,6 +101,17 @@ pub struct DirSpec {
     pub estores: Vec<EStoreSpec>,
     /// content-address columns take the addresses of the container's real contents
     pub linked: bool,
+    /// indexes carry application bytes and a primary-key number (derived from their name)
+    /// instead of the defaults
+    #[serde(default)]
+    pub index_meta: bool,
+}
+
+/// (free data, index key) given to `create_index` for an index name when `index_meta` is set
+pub fn index_meta_of(name: &str) -> ([u8; 4], u8) {
+    let h = blake3::hash(name.as_bytes());
+    let b = h.as_bytes();
+    ([b[0] | 1, b[1], b[2], b[3] | 0x80], 1 + b[4] % 200)
 }
 
 impl DirSpec {
@@ -120,6 +131,7 @@ impl DirSpec {
                 windows: vec![Win::Whole],
             }],
             linked: true,
+            index_meta: false,
         }
     }
 }
@@ -341,8 +353,8 @@ pub fn dir_strategy(size: SizeClass, sort: SortMode, allow_ref: bool, linked: bo
         5 => prop::collection::vec(estore_strategy(size, sort, allow_ref), 1..=1),
         1 => prop::collection::vec(estore_strategy(SizeClass::Small, sort, allow_ref), 2..=2),
     ];
-    (vstores, estores)
-        .prop_map(move |(mut vstores, estores)| {
+    (vstores, estores, any::<bool>())
+        .prop_map(move |(mut vstores, estores, index_meta)| {
             // a sorted store whose only sortable property is the inserted array needs a value store
             if vstores.is_empty()
                 && estores.iter().any(|e| {
@@ -352,7 +364,7 @@ pub fn dir_strategy(size: SizeClass, sort: SortMode, allow_ref: bool, linked: bo
             {
                 vstores.push(StoreKind::Plain);
             }
-            DirSpec { vstores, estores, linked }
+            DirSpec { vstores, estores, linked, index_meta }
         })
         .boxed()
 }
@@ -477,6 +489,7 @@ impl EStoreModel {
 pub struct DirModel {
     pub stores: Vec<EStoreModel>,
     pub vstores: Vec<StoreKind>,
+    pub index_meta: bool,
 }
 
 pub fn cmp_dval(a: &DVal, b: &DVal) -> Ordering {
@@ -619,7 +632,7 @@ pub fn build_model(spec: &DirSpec, addresses: &[(u16, u32)]) -> DirModel {
             .collect();
         stores.push(EStoreModel { schema, entries, order, final_pos, windows, dropped_dups: dropped, sorted, moved });
     }
-    DirModel { stores, vstores: spec.vstores.clone() }
+    DirModel { stores, vstores: spec.vstores.clone(), index_meta: spec.index_meta }
 }
 
 // ---------------------------------------------------------------------------------------
@@ -631,6 +644,7 @@ pub struct DirBuild {
     pub windows: Vec<Vec<(String, usize, usize)>>,
     /// handle returned by add_entry, per store per insertion
     pub bounds: Vec<Vec<jbk::Bound<jbk::EntryIdx>>>,
+    pub index_meta: bool,
 }
 
 fn to_jbk_value(v: &DVal) -> jbk::Value {
@@ -709,7 +723,7 @@ pub fn build_dir(model: &DirModel) -> DirBuild {
         windows.push(sm.windows.clone());
         all_bounds.push(bounds);
     }
-    DirBuild { vstores, estores, windows, bounds: all_bounds }
+    DirBuild { vstores, estores, windows, bounds: all_bounds, index_meta: model.index_meta }
 }
 
 impl DirBuild {
@@ -721,7 +735,8 @@ impl DirBuild {
         for (es, wins) in self.estores.into_iter().zip(self.windows) {
             let sid = dp.add_entry_store(es);
             for (name, off, cnt) in wins {
-                dp.create_index(&name, Default::default(), 0.into(), sid, (cnt as u32).into(), jbk::EntryIdx::from(off as u32).into());
+                let (fd, key) = if self.index_meta { index_meta_of(&name) } else { ([0; 4], 0) };
+                dp.create_index(&name, fd.into(), key.into(), sid, (cnt as u32).into(), jbk::EntryIdx::from(off as u32).into());
             }
         }
         self.bounds
@@ -1126,6 +1141,14 @@ pub fn verify_indep_dir(pack_bytes: &[u8], dec: &crate::indep::DirectoryPackDec,
                 ix.store,
                 ix.offset,
                 ix.count
+            );
+            let (fd, key) = if model.index_meta { index_meta_of(wname) } else { ([0; 4], 0) };
+            ensure!(
+                ix.free_data == fd && ix.key == key,
+                "indep-index-free-data",
+                "index {wname}: free data {:02x?} and key {} on disk (bytes 12..16 and 16 of the index header), given {fd:02x?} and {key}",
+                ix.free_data,
+                ix.key
             );
         }
         for p in 0..sm.entries.len() {
